@@ -135,7 +135,7 @@ func genTriple(t *rapid.T) exprCase {
 	a, ca := gen.Value(t)
 	b, cb := gen.Value(t)
 	c, cc := gen.Value(t)
-	if fw.Chance(t, "related", 30) {
+	if fw.Pct(t, "related", 30) {
 		// make equalities and orderings frequent: derive b and c from a's neighbourhood
 		switch a.K {
 		case "I":
@@ -392,14 +392,14 @@ type arithCase struct {
 func genArith(t *rapid.T) arithCase {
 	var a, b val.Val
 	var ca, cb string
-	if fw.Chance(t, "anyOperand", 25) {
+	if fw.Pct(t, "anyOperand", 20) {
 		a, ca = gen.Value(t)
 		b, cb = gen.Value(t)
 	} else {
 		a, ca = gen.Numeric(t)
 		b, cb = gen.Numeric(t)
 	}
-	return arithCase{A: a, B: b, Op: fw.Pick(t, "op", []string{"+", "-", "*", "/", "%"}), CA: ca, CB: cb}
+	return arithCase{A: a, B: b, Op: fw.PickU(t, "op", []string{"+", "-", "*", "/", "%"}), CA: ca, CB: cb}
 }
 
 func exactInt(a, b int64, op string) (*big.Int, bool) {
